@@ -1275,6 +1275,9 @@ theorem evs_inv (s : Spec κ ν) (st : St κ ν) (hs : List (Ev κ ν)) (v : Val
     | rrun cur order =>
       simp only [evs, runByValue, reload]
       exact ih _ hr (run_inv s st cur order v (hc cur order (Or.inr (by simp))) inv)
+    | tamper o =>
+      simp only [evs, tamper]
+      exact ih _ hr ⟨inv.inputs, fun c _ hc _ => by simp at hc⟩
     | reload =>
       simp only [evs, reload]
       exact ih _ hr inv
@@ -1881,6 +1884,7 @@ theorem evs_inv_any (s : Spec κ ν) (st : St κ ν) (hs : List (Ev κ ν)) (v :
     | run cur order => simp only [evs]; exact ih _ (run_inv_any s st cur order v hcl hout inv)
     | rrun cur order =>
       simp only [evs, runByValue, reload]; exact ih _ (run_inv_any s st cur order v hcl hout inv)
+    | tamper o => simp only [evs, tamper]; exact ih _ ⟨inv.inputs, fun c _ hc _ => by simp at hc⟩
     | reload => simp only [evs, reload]; exact ih _ inv
     | snap cur =>
       simp only [evs]
